@@ -177,6 +177,12 @@ fn node_scenario(a: &[&str]) -> String {
                     c.crypto.trusted_keys = trusted.iter().map(|k| crate::util::to_base62(k)).collect();
                     let (plain, speeds) = parse_algos(p[9]);
                     MockSocket::set_nat(p.len() > 10 && p[10] == "nat");
+                    if p.len() > 10 && p[10] == "hkf" {
+                        // a lasting local fault in a housekeeping step: a beacon file that cannot be read (housekeep then returns
+                        // early at the beacon step on every tick)
+                        c.beacon_load = Some("/nonexistent/verif-no-such-beacon-file".into());
+                        c.beacon_interval = 1;
+                    }
                     let node = match dt {
                         Type::Tap => {
                             let mut n = TapNode::new(&c, MockSocket::new(addr_of(i)), MockDevice::new(), None, None);
